@@ -55,12 +55,15 @@ CUSTOM = [
 EXTRA_NAMES = ["*", "*.test", "*.b.x.test", "b.x.test", "10.0.0.2", "*.x.test", "y.test", "*.a.x.test", "test", "::1"]
 
 _sans = st.lists(st.integers(0, len(SAN_UNIVERSE) - 1), max_size=3, unique=True)
-_get = st.tuples(st.just("get"), st.integers(0, len(CNS) - 1), _sans, st.sampled_from([None, None, "org"]))
+# how the SANs are handed over: get_cert's contract is `sans: Iterable[x509.GeneralName]`, so every iterable is in contract
+CONTAINERS = ["GeneralNames", "list", "tuple", "generator", "iter", "map"]
+_cont = st.sampled_from([0, 1, 1, 2, 3, 4, 5])
+_get = st.tuples(st.just("get"), st.integers(0, len(CNS) - 1), _sans, st.sampled_from([None, None, "org"]), _cont)
 _add = st.tuples(st.just("add"), st.integers(0, len(CUSTOM) - 1),
                  st.lists(st.integers(0, len(EXTRA_NAMES) - 1), max_size=2))
-_again = st.tuples(st.just("again"), st.integers(0, 40))  # repeat the k-th earlier get
+_again = st.tuples(st.just("again"), st.integers(0, 40), _cont)  # repeat the k-th earlier get
 # same CN as the k-th earlier get, other SANs (lookup keys of one request must not influence another one)
-_vary = st.tuples(st.just("vary"), st.integers(0, 40), _sans)
+_vary = st.tuples(st.just("vary"), st.integers(0, 40), _sans, _cont)
 
 
 def _weighted(*pairs):
@@ -132,6 +135,23 @@ def gn(sans):
         else:
             out.append(x509.IPAddress(ipaddress.ip_address(v)))
     return x509.GeneralNames(out)
+
+
+def as_container(names, kind):
+    items = list(names)
+    if kind == "GeneralNames":
+        return names
+    if kind == "list":
+        return items
+    if kind == "tuple":
+        return tuple(items)
+    if kind == "generator":
+        return (x for x in items)
+    if kind == "iter":
+        return iter(items)
+    if kind == "map":
+        return map(lambda x: x, items)
+    raise AssertionError(kind)
 
 
 def cert_names(cert):
@@ -250,8 +270,11 @@ def check_case(case, ctx):
                 gets.append((cni, sani, org))
             cn = CNS[cni]
             sans = [SAN_UNIVERSE[i] for i in sani]
+            want_len = {"get": 5, "again": 3, "vary": 4}[op[0]]
+            cont = CONTAINERS[op[want_len - 1] % len(CONTAINERS)] if len(op) >= want_len else "GeneralNames"
+            ctx.cls("sans passed as " + cont)
             try:
-                entry = store.get_cert(cn, gn(sans), org)
+                entry = store.get_cert(cn, as_container(gn(sans), cont), org)
             except Exception as e:
                 ctx.crash(e)
                 return
